@@ -148,6 +148,36 @@ Proof.
     + left. eauto.
 Qed.
 
+(** ... after entries of that node have left the map (a renamed definition) *)
+Lemma ExOK_export_sub ns ns' n nd nd' e ex ex0 :
+  getn ns n = Some nd -> upd ns ns' n (Some nd') -> nexport nd' = Some e -> ~ In e (map fst ex0) ->
+  (forall x, In x ex0 -> In x ex) -> (forall x, In x ex -> snd x <> n -> In x ex0) -> NoDup (map fst ex0) ->
+  ExOK ns ex -> ExOK ns' (ex0 ++ [(e, n)]).
+Proof.
+  intros G U E Hn Sub Keep ND [L K Nd]. constructor.
+  - intros nm m H. apply in_app_or in H as [H|[[= <- <-]|[]]].
+    + eapply liveb_upd_some; eauto.
+    + apply liveb_true. exists nd'. now apply upd_same in U.
+  - rewrite map_app. cbn. apply NoDup_app_single; auto.
+  - intros m nd2 nm H E'. rewrite U in H. apply in_or_app. destruct (Nat.eqb_spec m n) as [->|Hne].
+    + right. left. congruence.
+    + left. apply Keep; eauto.
+Qed.
+
+(** the export map after the rename step of [export] *)
+Lemma exports_renamed_spec ns ex n nd :
+  ExOK ns ex -> getn ns n = Some nd ->
+  let ex0 := match nk nd, nexport nd with NDef, Some previous => shift_remove ex previous | _, _ => ex end in
+  (forall x, In x ex0 -> In x ex) /\ (forall x, In x ex -> snd x <> n -> In x ex0) /\ NoDup (map fst ex0).
+Proof.
+  intros [L K Nd] G ex0. subst ex0. destruct (nk nd); [|repeat split; auto ..].
+  destruct (nexport nd) as [previous|] eqn:E; [|repeat split; auto]. repeat split.
+  - intros x. apply shift_remove_In.
+  - intros [k v] Hin Hne. apply shift_remove_In_iff; auto. split; auto. cbn in *. intros ->. apply Hne.
+    eapply NoDup_keys_inj; eauto.
+  - now apply shift_remove_NoDup.
+Qed.
+
 Lemma ExOK_unexport ns ns' n nd nd' ex ex' :
   getn ns n = Some nd -> upd ns ns' n (Some nd') -> nexport nd' = None ->
   (forall x, In x ex' <-> In x ex /\ snd x <> n) -> NoDup (map fst ex') ->
